@@ -6,6 +6,7 @@
 //! dv selfcheck                       determinism of the simulator itself
 //! ```
 
+mod allocrun;
 mod batch;
 mod common;
 mod loopcheck;
@@ -190,11 +191,49 @@ fn check_loop(prop: Prop, tier: Tier, seed: u64) -> i32 {
     finish(prop, tier, seed, res, meta)
 }
 
+fn check_alloc(prop: Prop, tier: Tier, seed: u64) -> i32 {
+    let (runs, wall): (u64, u64) = match tier {
+        Tier::Quick => (30_000, 120),
+        Tier::Thorough => (400_000, 900),
+    };
+    let runs = std::env::var("VERIF_RUNS").ok().and_then(|s| s.parse().ok()).unwrap_or(runs);
+    let cfg = BatchCfg {
+        prop,
+        tier,
+        seed,
+        runs,
+        wall: Duration::from_secs(wall),
+        workers: common::workers(),
+        salt: 0,
+    };
+    let known = known_for::<allocrun::AllocScn>(prop);
+    let res = batch::run_batch::<allocrun::AllocScn>(&cfg, &known);
+    let meta = EvidenceMeta {
+        prop,
+        tier,
+        seed,
+        level: "exploration",
+        rule: "one run = (1..8 simulated threads, each a seeded script of alloc / alloc_zeroed / dealloc / realloc operations with sizes 0..2^40 through the real AllocProfiler, with tally take and peek points) x one seeded schedule in which every operation is a scheduling point; non-trivial = >= 2 threads with >= 1 contested decision, or >= 2 operations; distinct = unseen (script shape, per-object operation-order signature, snapshot figures)",
+        assumptions: vec![
+            "the wrapped allocator is a mock that fabricates pointers (never dereferenced); transparency towards the wrapped allocator is C09's".into(),
+            "simulated threads are real OS threads, so the per-thread tally is divan's real thread-local".into(),
+            "sampling, not enumeration".into(),
+        ],
+        components_real: vec![
+            "divan::alloc::AllocProfiler (GlobalAlloc impl), ThreadAllocInfo (tally_alloc / tally_dealloc / tally_realloc / clear / try_current / current), thread_local CURRENT_THREAD_INFO",
+        ],
+        components_stub: vec!["the wrapped allocator (MockAlloc)", "thread spawn / join (dsim models)"],
+        extra: json!({}),
+    };
+    finish(prop, tier, seed, res, meta)
+}
+
 fn cmd_check(prop: Prop, tier: Tier) -> i32 {
     let seed = common::verif_seed();
     println!("VERIF_SEED={seed} property={prop} tier={}", tier.name());
     match prop {
         Prop::C06 | Prop::C07 => check_pool(prop, tier, seed),
+        Prop::C10 => check_alloc(prop, tier, seed),
         Prop::C01 | Prop::C02 | Prop::C03 | Prop::C04 | Prop::C05 | Prop::C08 | Prop::C11 | Prop::C19 => {
             check_loop(prop, tier, seed)
         }
@@ -221,6 +260,7 @@ fn cmd_replay(path: &Path) -> i32 {
     let out = match kind {
         "pool" => batch::replay_case::<pool::PoolScn>(prop, &v),
         "loop" => batch::replay_case::<looprun::LoopScn>(prop, &v),
+        "alloc" => batch::replay_case::<allocrun::AllocScn>(prop, &v),
         other => Err(format!("unknown scenario kind {other:?}")),
     };
     match out {
